@@ -1,2 +1,153 @@
-(* placeholder while the harness is brought up *)
-From Mv Require Import Model.Rsync.
+(* C19 — rsync deltas reconstruct the target exactly.
+   Property theorems only: each is closed by [exact <lemma>] from
+   Proof/Rsync.v or Proof/RsyncHash.v and listed under Print Assumptions.
+
+   Model: Model/Rsync.v transcribes engine.go (weakHash, rollWeakHash,
+   Signature, Deltify with its sendBlock/sendData closures, Patch/PatchBytes).
+   The strong hash H (SHA-1 in the Go code), equality on digests and the
+   non-emptiness test on digests are Section variables; what is assumed of them
+   is written as hypotheses below and becomes a premise of each theorem. *)
+From Coq Require Import List Arith ZArith Bool.
+From Coq Require Import Init.Byte.
+Import ListNotations.
+From Mv Require Import Model.Rsync Proof.RsyncHash Proof.Rsync.
+
+Section C19.
+Variable D : Type.                         (* digests *)
+Variable H : list byte -> D.               (* the strong hash *)
+Variable Deqb : D -> D -> bool.            (* bytes.Equal on digests *)
+Variable strong_valid : D -> bool.         (* len(Strong) != 0 *)
+Hypothesis Deqb_spec : forall a b, Deqb a b = true <-> a = b.
+Hypothesis H_valid : forall x, strong_valid (H x) = true.
+
+(* Full statement of the round trip: for EVERY base, target, block size > 0 and
+   maximum data-operation size (0 = default), if the strong hash does not
+   collide between a block of the base and a contiguous piece of the target,
+   then applying the delta computed against the base's signature to the base
+   reproduces the target byte for byte. *)
+Theorem c19_roundtrip :
+  forall (base target : list byte) (blk maxop : nat) (s : sig D) (ops : list op),
+    0 < blk ->
+    signature H base blk = Some s ->
+    collision_free H base blk target ->
+    deltify H Deqb target s maxop = Some ops ->
+    patch base s ops = Some target.
+Proof. exact (deltify_roundtrip D H Deqb Deqb_spec). Qed.
+
+(* The fuelled loops never run out of fuel and the "less than a block" panic
+   is unreachable: signature and delta are always produced. *)
+Theorem c19_signature_total :
+  forall (base : list byte) (blk : nat), 0 < blk -> exists s, signature H base blk = Some s.
+Proof. exact (fun base blk => @signature_total D H base blk). Qed.
+
+Theorem c19_deltify_total :
+  forall (base target : list byte) (blk maxop : nat) (s : sig D),
+    0 < blk -> signature H base blk = Some s ->
+    exists ops, deltify H Deqb target s maxop = Some ops.
+Proof. exact (deltify_total D H Deqb Deqb_spec). Qed.
+
+(* Every operation passes Operation.EnsureValid; block operations start inside
+   the signature and end within it.  No assumption on the strong hash. *)
+Theorem c19_ops_wf :
+  forall (base target : list byte) (blk maxop : nat) (s : sig D) (ops : list op),
+    0 < blk -> signature H base blk = Some s ->
+    deltify H Deqb target s maxop = Some ops ->
+    Forall (fun o => op_valid o = true /\
+                     (is_data o = false ->
+                      ostart o < length (shashes s) /\
+                      ostart o + ocount o <= length (shashes s))) ops.
+Proof. exact (deltify_ops_wf D H Deqb Deqb_spec). Qed.
+
+(* Literal data never exceeds the limit (65536 when the limit is given as 0). *)
+Theorem c19_data_bound :
+  forall (base target : list byte) (blk maxop : nat) (s : sig D) (ops : list op),
+    0 < blk -> signature H base blk = Some s ->
+    deltify H Deqb target s maxop = Some ops ->
+    Forall (fun o => length (odata o) <= eff_max maxop) ops.
+Proof. exact (deltify_data_bound D H Deqb Deqb_spec). Qed.
+
+Theorem c19_default_bound :
+  eff_max 0 = N.to_nat 65536 /\ forall m, m <> 0 -> eff_max m = m.
+Proof. exact eff_max_default. Qed.
+
+(* An unchanged target is sent without literal data (no assumption on
+   collisions: equal bytes have equal hashes). *)
+Theorem c19_unchanged_no_literal :
+  forall (base : list byte) (blk maxop : nat) (s : sig D) (ops : list op),
+    0 < blk -> signature H base blk = Some s ->
+    deltify H Deqb base s maxop = Some ops ->
+    Forall (fun o => is_data o = false) ops.
+Proof. exact (deltify_unchanged_no_literal D H Deqb Deqb_spec). Qed.
+
+(* Signature.EnsureValid accepts every computed signature. *)
+Theorem c19_sig_valid :
+  forall (base : list byte) (blk : nat) (s : sig D),
+    0 < blk -> signature H base blk = Some s -> sig_valid strong_valid s = true.
+Proof. exact (sig_valid_signature D H strong_valid H_valid). Qed.
+
+(* The checker applied to the implementation's outputs decides exactly the
+   property: soundness (and completeness) of check_C19. *)
+Theorem c19_check_sound :
+  forall (base target : list byte) (blk maxop : nat) (ops : list op),
+    check_C19 H strong_valid base target blk maxop ops = true ->
+    C19_holds H strong_valid base target blk maxop ops.
+Proof. exact (fun b t k m o => proj1 (check_C19_iff D H strong_valid b t k m o)). Qed.
+
+Theorem c19_check_complete :
+  forall (base target : list byte) (blk maxop : nat) (ops : list op),
+    C19_holds H strong_valid base target blk maxop ops ->
+    check_C19 H strong_valid base target blk maxop ops = true.
+Proof. exact (fun b t k m o => proj2 (check_C19_iff D H strong_valid b t k m o)). Qed.
+
+(* The model's own output passes the checker. *)
+Theorem c19_model_passes :
+  forall (base target : list byte) (blk maxop : nat) (s : sig D) (ops : list op),
+    0 < blk -> signature H base blk = Some s ->
+    collision_free H base blk target ->
+    deltify H Deqb target s maxop = Some ops ->
+    check_C19 H strong_valid base target blk maxop ops = true.
+Proof. exact (fun b t k m s o => model_passes_check D H Deqb strong_valid Deqb_spec b t k m s o H_valid). Qed.
+
+End C19.
+
+(* Rolling the weak hash by one byte equals recomputing it on the shifted
+   window (uint32 wrap-around and the final mod 2^16 included). *)
+Theorem c19_roll :
+  forall (out : byte) (rest : list byte) (inb : byte) (wk r1 r2 : Z),
+    let n := length (out :: rest) in
+    weak_hash (out :: rest) n = (wk, r1, r2) ->
+    roll_hash r1 r2 out inb n = weak_hash (rest ++ [inb]) n.
+Proof. exact roll_correct. Qed.
+
+(* The evaluation-friendly masks are the uint32 wrap and the modulus 2^16. *)
+Theorem c19_u32_is_mod : forall x : Z, u32 x = (x mod 4294967296)%Z.
+Proof. exact u32_mod. Qed.
+
+Theorem c19_m16_is_mod : forall x : Z, m16 x = (x mod 65536)%Z.
+Proof. exact m16_mod. Qed.
+
+(* Non-vacuity: the hypotheses are satisfiable (identity hash, which is what
+   the harness uses) on a case whose delta mixes block and data operations. *)
+Example c19_hypotheses_satisfiable :
+  collision_free (fun x : list byte => x) ex_base 2 ex_target /\
+  exists s ops, signature (fun x : list byte => x) ex_base 2 = Some s /\
+    deltify (fun x : list byte => x) list_eqb ex_target s 2 = Some ops /\
+    ops = [block_op 1 1; data_op [x7a]; block_op 0 1; data_op [x67]; block_op 3 1] /\
+    patch ex_base s ops = Some ex_target.
+Proof. exact c19_example_holds. Qed.
+
+Print Assumptions c19_roundtrip.
+Print Assumptions c19_signature_total.
+Print Assumptions c19_deltify_total.
+Print Assumptions c19_ops_wf.
+Print Assumptions c19_data_bound.
+Print Assumptions c19_default_bound.
+Print Assumptions c19_unchanged_no_literal.
+Print Assumptions c19_sig_valid.
+Print Assumptions c19_check_sound.
+Print Assumptions c19_check_complete.
+Print Assumptions c19_model_passes.
+Print Assumptions c19_roll.
+Print Assumptions c19_u32_is_mod.
+Print Assumptions c19_m16_is_mod.
+Print Assumptions c19_hypotheses_satisfiable.
